@@ -113,6 +113,13 @@ func (s c13seq) obj() py.Object {
 		}
 		return py.Bytes(b)
 	case "list":
+		if s.tag == "listcap" {
+			l := py.NewListWithCapacity(len(s.e) + 5)
+			for _, x := range s.e {
+				l.Append(py.Int(x))
+			}
+			return l
+		}
 		l := py.NewListSized(len(s.e))
 		for i, x := range s.e {
 			l.Items[i] = py.Int(x)
@@ -154,6 +161,9 @@ func (s c13seq) lit() string {
 		for i, x := range s.e {
 			xs[i] = strconv.FormatInt(x, 10)
 		}
+		if s.tag == "listcap" {
+			return c13capLit(xs)
+		}
 		if s.kind == "list" {
 			return "[" + strings.Join(xs, ", ") + "]"
 		}
@@ -174,6 +184,14 @@ var (
 )
 
 // c13mk builds the variant `tag` with n elements (all elements distinct).
+// c13capLit: an expression building the list by appending (spare capacity in the backing array)
+func c13capLit(xs []string) string {
+	if len(xs) == 0 {
+		return "[x for x in ()]"
+	}
+	return "[x for x in (" + strings.Join(xs, ", ") + ",)]"
+}
+
 func c13mk(tag string, n int) c13seq {
 	switch tag {
 	case "str":
@@ -190,6 +208,14 @@ func c13mk(tag string, n int) c13seq {
 			e[i] = 10 + int64(i)
 		}
 		return c13seq{kind: tag, tag: tag, e: e}
+	case "listcap":
+		// a list whose backing array has spare capacity (built by appending / a comprehension),
+		// as opposed to one built from a display whose capacity equals its length
+		e := make([]int64, n)
+		for i := range e {
+			e[i] = 10 + int64(i)
+		}
+		return c13seq{kind: "list", tag: tag, e: e}
 	}
 	// range variants: r<step> (stop exactly start+n*step) and r<step>m (smallest/“ragged” stop)
 	if strings.HasPrefix(tag, "r") {
